@@ -341,7 +341,8 @@ func genSpec(rnd *rand.Rand, j job, c *core.Ctx) *histSpec {
 	}
 	s.Scenario = scenarios[(j.Idx/2+int(c.Seed))%len(scenarios)]
 	if j.Kind == "crash" {
-		s.Scenario = []string{"crash-first-rollup", "crash-second-rollup", "crash-two-families"}[(j.Idx+int(c.Seed))%3]
+		s.Scenario = []string{"crash-first-rollup", "crash-compacted-before-rollup", "crash-second-rollup", "crash-moved-to-level1-before-rollup",
+			"crash-two-families", "crash-mixed-compacted-and-level0"}[(j.Idx+int(c.Seed))%6]
 		if s.Src == msSecond {
 			s.Src = 10 * msSecond
 		}
@@ -468,6 +469,20 @@ func genSpec(rnd *rand.Rand, j job, c *core.Ctx) *histSpec {
 	case "crash-second-rollup":
 		spot(year, month, day, rnd.Intn(24), "hour")
 		steps(fl(0), "rollup", fl(0), fl(0), "crash")
+	case "crash-compacted-before-rollup":
+		// the marked tables were merged by a compaction before the (crashing) rollup runs: the job reads them by file number
+		spot(year, month, day, rnd.Intn(24), "hour")
+		steps(fl(0), fl(0), "compact:0", "crash")
+	case "crash-moved-to-level1-before-rollup":
+		// one marked table moved to level 1 by a forced job, a second one still on level 0
+		spot(year, month, day, []int{0, 23}[rnd.Intn(2)], "edge-hour")
+		steps(fl(0), "force:0", fl(0), "crash")
+	case "crash-mixed-compacted-and-level0":
+		// a rolled-up table and two marked tables merged, one more marked table on level 0, a second family untouched
+		hh := 2 * rnd.Intn(12)
+		spot(year, month, day, hh, "even-hour")
+		spot(year, month, day, hh+1, "odd-hour-of-the-same-2h-slot")
+		steps(fl(0), "rollup", fl(0), fl(0), "compact:0", fl(0), fl(1), "crash")
 	case "crash-two-families":
 		hh := 2 * rnd.Intn(12)
 		spot(year, month, day, hh, "even-hour")
